@@ -241,9 +241,14 @@ func (rn *runner) endToEnd(text string, r0, opt *syntax.Regexp, eo *regexp.Regex
 		}
 		// against the engine on the original text. Trees with a case-folded literal are left to C08: such a literal is
 		// evaluated by the case-insensitive substring path, whose known disagreement with (?i) is C08's finding.
+		// The engine oracle is applied to the *set of files*: which ranges a matching file reports for patterns that
+		// newMatchTree distils into substring trees ((?:foo)+ is evaluated as foo, foo|foobar as two substrings) is the
+		// subject of the search-exactness properties (C01/C02), not of printing/optimisation; such differences are counted.
 		if goV == "" && !hasFold {
-			if diff := diffRanges(want, got); diff != "" {
-				goV, key = "shard search differs from the engine on the original pattern: "+diff, "e2e-search-differs"
+			if diff := diffFiles(want, got); diff != "" {
+				goV, key = "shard search returns other files than the engine on the original pattern: "+diff, "e2e-search-differs"
+			} else if diffRanges(want, got) != "" {
+				rn.w.Count("e2e-ranges-differ-from-engine(distilled match tree; C01/C02)", 1)
 			}
 		}
 		if hasFold {
@@ -256,6 +261,20 @@ func (rn *runner) endToEnd(text string, r0, opt *syntax.Regexp, eo *regexp.Regex
 func mustTree(re *syntax.Regexp) string {
 	t, _ := gen.ReTree(re)
 	return t
+}
+
+func diffFiles(want, got map[string][][]int) string {
+	for n := range want {
+		if _, ok := got[n]; !ok {
+			return n + ": matched by the engine, not returned by the search"
+		}
+	}
+	for n := range got {
+		if _, ok := want[n]; !ok {
+			return n + ": returned by the search, not matched by the engine"
+		}
+	}
+	return ""
 }
 
 func diffRanges(want, got map[string][][]int) string {
